@@ -108,3 +108,10 @@ prop("C17", module="MW.Props.C17", title="complete pagination, consistent per-us
      weights={"unstake": 22, "withdraw": 16, "submit": 12, "deliver": 10, "stake": 14, "ack": 8, "timeout": 4},
      profile={"queries": 0.5},
      assumptions=["the model answers UnstakeRequests by filtering one request list (the specification); the upkeep of the real secondary index is covered differentially"])
+
+prop("C09", module="MW.Props.C09", title="ibc-hooks sender derivation",
+     variants=["receive_rewards", "receive_unstaked_tokens", "update_config"], state_keys=["config"],
+     pure=["derive_intermediate_sender", "channel_ok", "validate_address_prefix"],
+     weights={"deliver": 25, "rewards": 25, "update_config": 10, "unauthorized": 10, "submit": 8, "unstake": 8, "stake": 10},
+     assumptions=["SHA-256 collision resistance (the no-impersonation theorem is a reduction to a collision)",
+                  "the specification is osmosis x/ibc-hooks DeriveIntermediateSender + cosmos-sdk address.Hash; an independent Python implementation (hashlib + reference bech32) is compared on every generated triple"])
